@@ -9,6 +9,7 @@ import (
 	"fmt"
 	"io"
 	"net/http"
+	"net/url"
 	"os"
 	"path"
 	"path/filepath"
@@ -25,7 +26,7 @@ import (
 
 const rule = "fixture = an on-disk tree: public/ with files, sub-directories with and without index, a directory named like the index file, odd names (blank, '..x', '%41.txt'), and outside it secret.txt and public-evil/ - every file holds a unique marker. " +
 	"case = options (Prefix spelled ''|p|/p|/p/|p/q, custom Index, SetETag, Expires, CacheControl) x 1..6 requests: method in {GET, HEAD, POST, PUT, ''}, path assembled from pieces {file names, directory names, '..', '.', '', NUL, backslash, prefix look-alikes such as /px, /p-evil, /p.., <prefix><name> without a slash}, optional If-None-Match (learned from a first response). " +
-	"Oracle: an own resolver over the fixture manifest - not GET/HEAD, prefix mismatch (segment boundary), or Clean('/'+rest) neither a regular file nor a directory -> Static wrote nothing and the next handler produced the response; regular file -> 200 with exactly that file's marker (HEAD: empty body), or 304 with an empty body for a conditional request whose If-None-Match carries the ETag of an earlier response; directory without trailing slash -> 302 to a local path ending in '/' (an index-less directory may also stay silent); directory with slash -> its index file if regular, else silent; never an outside marker in any response. " +
+	"Oracle: an own resolver over the fixture manifest - not GET/HEAD, prefix mismatch (segment boundary), or Clean('/'+rest) neither a regular file nor a directory -> Static wrote nothing and the next handler produced the response; regular file -> 200 with exactly that file's marker (HEAD: empty body), or 304 with an empty body for a conditional request whose If-None-Match carries the ETag of an earlier response; directory without trailing slash -> 302 whose Location, resolved against the request path, is the cleaned request path plus '/' (an index-less directory may also stay silent); directory with slash -> its index file if regular, else silent; never an outside marker in any response. " +
 	"non-trivial = a case with a path containing '..', a doubled slash, NUL or a backslash, a prefix look-alike, a directory, or a conditional request; distinct by case text"
 
 var assumptions = []string{
@@ -236,8 +237,18 @@ func checkCase(c Case) (out evid.Outcome) {
 			if spy.Status() != http.StatusFound || nextRan {
 				return fail(out, "no-redirect", "a directory without trailing slash must be redirected: status %v, next ran=%v; %s", spy.Codes, nextRan, desc)
 			}
-			if !strings.HasPrefix(loc, "/") || strings.HasPrefix(loc, "//") || !strings.HasSuffix(loc, "/") {
-				return fail(out, "bad-location", "redirect Location %q is not a local path ending in '/'; %s", loc, desc)
+			// "redirected to their slash-terminated form": the Location, resolved
+			// against the request path like a client does, must be the cleaned
+			// request path plus "/" on the same host (absolute-path and relative
+			// references are both fine, percent-encoded or not)
+			ref, perr := url.Parse(loc)
+			if perr != nil || ref.Scheme != "" || ref.Host != "" || strings.HasPrefix(loc, "//") {
+				return fail(out, "bad-location", "redirect Location %q is not a local reference (%v); %s", loc, perr, desc)
+			}
+			base := &url.URL{Path: p}
+			target := base.ResolveReference(ref).Path
+			if wantT := path.Clean(p) + "/"; target != wantT {
+				return fail(out, "bad-location", "redirect Location %q resolves to %q, the slash-terminated form of the request path is %q; %s", loc, target, wantT, desc)
 			}
 			return evid.Outcome{}
 		}
